@@ -14,7 +14,7 @@ ASSUMPTIONS = ["user gates are defined with the naming decorator and annotated w
 CLASSIFIERS: dict = {}
 PI = math.pi
 USER_SIG = {"myrot": "qf", "u2": "fqf", "swp": "qq", "cph": "qiq", "ccx": "qqq", "g3": "qfif", "flip": "q", "cxy": "qq",
-            "cphase": "qqf", "xx": "qfq"}
+            "cphase": "qqf", "xx": "qfq", "tcx": "qq", "t3": "qqq"}
 _FUNCS = None
 
 
@@ -73,8 +73,19 @@ def user_functions():
         c, s_ = math.cos(t.value / 2), math.sin(t.value / 2)
         return MatrixGate([[c, 0, 0, -1j * s_], [0, c, -1j * s_, 0], [0, -1j * s_, c, 0], [-1j * s_, 0, 0, c]], [q1, q2])
 
+    # qubit parameters declared in ANOTHER order than the operands of the gate that is built
+    @named_gate
+    def tcx(tgt: QubitLike, ctrl: QubitLike) -> ControlledGate:
+        return ControlledGate(ctrl, X(tgt))
+
+    @named_gate
+    def t3(t: QubitLike, c1: QubitLike, c2: QubitLike) -> MatrixGate:
+        m = np.eye(8)
+        m[[3, 7]] = m[[7, 3]]           # flips operand 2 (most significant) when operands 0 and 1 are set
+        return MatrixGate(m, [c1, c2, t])
+
     d = gen.default_functions()
-    d.update({f.__name__: f for f in (myrot, u2, swp, cph, ccx, g3, flip, cxy, cphase, xx)})
+    d.update({f.__name__: f for f in (myrot, u2, swp, cph, ccx, g3, flip, cxy, cphase, xx, tcx, t3)})
     gen.GATE_SIG.update(USER_SIG)
     _FUNCS = d
     return d
@@ -231,7 +242,9 @@ def check_user_pass(ctx, case, c, ref, perm, funcs):
         want_args = uargs
         if p and p[0] == "map":
             want_args = [("q", perm[a[1]]) if a[0] == "q" else a for a in uargs]
-            if oracles.stmt_qubits(s) != [perm[q] for q in gen.spec_qubits(u)]:
+            # the operands of the gate as an independently built copy has them (a user gate may declare its qubit
+            # parameters in another order than the operands of the gate it builds), relabelled
+            if oracles.stmt_qubits(s) != [perm[q] for q in oracles.stmt_qubits(ref.ir.statements[pos])]:
                 ctx.oracle_fail("user", case, "mapping did not relabel the user gate's semantic qubits", eq)
         if ser.canon_args(s.arguments) != want_args:
             ctx.oracle_fail("user", case, f"user gate arguments {ser.canon_args(s.arguments)} != {want_args}", eq)
